@@ -164,8 +164,6 @@ def check(run: Run) -> None:
         se = ShapeEval(model, f)
         for n in walk_no_nested(f.node):
             if isinstance(n, ast.Call) and ast.unparse(n.func) in ("re.compile", "re.sub", "re.subn", "re.search", "re.match", "re.findall", "re.finditer") and n.args:
-                if f.qualname.startswith("zorg.shared.common.") and f.name not in ("simplify_fname", "strip_zdir", "prepend_zdir", "bulk_prepend_zdir", "get_all_zfiles"):
-                    continue
                 for sh in se.eval(n.args[0]):
                     for p in sh:
                         if isinstance(p, Hole):
